@@ -86,7 +86,9 @@ class Reply(SerializableMixin, DictableMixin):
                     and self._multiline_code in (None, match.group(1)):
                 # A multi-line reply ends with a line beginning with the
                 # same code as its first line (RFC 959 section 4.2).
-                assert self.code is None
+                if self.code is not None:
+                    raise ProtocolError('Reply has more than one final line.')
+
                 self.code = int(match.group(1))
             elif match.group(1) and match.group(2) == b'-' \
                     and self.text is None:
